@@ -203,6 +203,14 @@ def check_run(ck, net, fr, g, label, wit):
     key0 = "%s:%s" % (net.kind, label.split(":")[0])
     if ck.sanitizer(g.rr, wit, prefix="gama-local:"):
         return False
+    if oc != "adjusted" and net.kind.startswith("strategy-") and not any(
+            e.get("kind") == "acord" and (e["missing_xy_before"] + e["missing_z_before"]) >
+            (e["missing_xy_after"] + e["missing_z_after"]) for e in g.trace):
+        # gama's own approximate-coordinate computation gave up on this geometry (the manual: 'able to estimate
+        # approximate coordinates in most of the cases'): outside the quantifier, measured only.  The run as a
+        # whole is inconclusive unless each strategy solved something somewhere (ck.minimum below).
+        ck.inconc("documented strategy did not resolve this geometry: " + net.kind)
+        return False
     if oc != "adjusted":
         ck.violation("not-adjusted:%s:%s" % (key0, oc.split(":")[0] + ":" + oc.split(":")[-1]),
                      "consistent determined network was not adjusted: %s %s" % (
@@ -397,6 +405,9 @@ def run(tier, seed, only=None):
     ck.minimum = dict(evaluations=tier_n(tier, 100, 3000), distinct=20)
     ck.minimum["acord:AcordPolar:solved-or-proposed"] = 1
     ck.minimum["acord:AcordHdiffs:solved-or-proposed"] = 1
+    ck.minimum["acord:AcordIntersection:solved-or-proposed"] = 1
+    ck.minimum["acord:AcordTraverse:solved-or-proposed"] = 1
+    ck.minimum["acord:AcordZderived:solved-or-proposed"] = 1
     return ck.finish()
 
 
